@@ -206,7 +206,11 @@ def run_tables(chk, drv, model):
     # ---- providePriorValue / execute (the update-if-newer shortcut)
     for name, pk, started, rk in prior:
         am, oe = PRIOR_FLAGS[name]
-        reqs.append("runp %d 0 1 %d %d %s - 0" % (probe_tool(name), am, oe, pk)); meta.append(("prior", name, pk, "%s %s" % (rk, started)))
+        if "+" in pk:      # "<prior>+<input kinds>"
+            pr, ins = pk.split("+")
+            reqs.append("runp %d 0 1 %d %d %s %s 0" % (probe_tool(name), am, oe, pr, ins)); meta.append(("prior", name, pk, "%s %s" % (rk, started)))
+        else:
+            reqs.append("runp %d 0 1 %d %d %s - 0" % (probe_tool(name), am, oe, pk)); meta.append(("prior", name, pk, "%s %s" % (rk, started)))
     rc2, mo, e2 = vlib.run_lines(model, reqs, timeout=600)
     assert rc2 == 0 and len(mo) == len(reqs), (rc2, e2[-500:])
     ndis = 0
@@ -241,9 +245,14 @@ def run_tables(chk, drv, model):
             _, name, pk, impl = m
             chk.distinct.add(("prior", name, pk))
             rk, started = impl.split(" ")
-            if pk not in ("10", "17") and started == "0":
+            if "+" in pk:
+                if int(rk) not in FAILING:
+                    chk.violation("failed-input-shortcut", "the real %s command with a successful prior result, given a FailedInput, completes with %s (%s): the update-if-newer shortcut overrides the skip decision and the failure stops propagating"
+                                  % (name, KNAME.get(int(rk), rk), "launched" if started == "1" else "not launched"),
+                                  dict(command=name, prior_and_inputs=pk, implementation=impl, model=a, description=PROBE_DESC), found_input=True, broken="c10 oracle on the real providePriorValue/provideValue/execute")
+            elif pk not in ("10", "17") and started == "0":
                 chk.violation("failed-prior-shortcut", "the real %s command, given the recorded prior value %s, completes with %s WITHOUT being launched (update-if-newer shortcut on a result that is not a success): a failed command is not attempted again"
-                              % (name, "none" if pk == "none" else KNAME.get(int(pk), pk), KNAME.get(int(rk), rk)),
+                              % (name, "none" if pk == "none" else KNAME.get(int(pk), pk) if pk.isdigit() else pk, KNAME.get(int(rk), rk)),
                               dict(command=name, prior=pk, implementation=impl, model=a, description=PROBE_DESC), found_input=True, broken="c10 oracle on the real providePriorValue/execute")
             if " ".join(a.split(" ")[:2]) != impl:
                 ndis += 1
@@ -847,8 +856,26 @@ def directed_deps_histories():
                 i += 1
     return hs
 
+def directed_shortcut_histories():
+    """Always in the quick tier: A -> B -> C where the MIDDLE command B carries allow-modified-outputs; a first good build
+    gives B a successful prior result and existing outputs; then A fails: B must be skipped (not shortcut), C must not run."""
+    hs = []
+    for i, mode in enumerate(["drv-0-keepgoing", "drv-4-keepgoing", "drv-0-keepgoing", "cli-serial"]):
+        k = 1 + i % 2          # length of the allow-modified middle part
+        cmds = [S_("c0", ["src0.txt"], ["o_c0_0.out"])]
+        prev = "o_c0_0.out"
+        for j in range(1, k + 1):
+            cmds.append(S_("c%d" % j, [prev, "src1.txt"] if j % 2 else ["src1.txt", prev], ["o_c%d_0.out" % j], allow_modified=True)); prev = "o_c%d_0.out" % j
+        cmds.append(S_("c%d" % (k + 1), [prev], ["o_c%d_0.out" % (k + 1)]))
+        h = corpus_history(9600 + i, cmds, {}, mode, "shortcut-middle-%d" % k)
+        h["sources"] = ["src0.txt", "src1.txt"]
+        F = {"c0": ("exit", 2) if i % 2 == 0 else ("after-exit", 0)}
+        h["builds"] = [dict(fail={}, edit=None), dict(fail=F, edit="src0.txt"), dict(fail=F, edit=None), dict(fail={}, edit=None)]
+        hs.append(h)
+    return hs
+
 def corpus_histories():
-    hs = directed_restart_histories() + directed_deps_histories()
+    hs = directed_restart_histories() + directed_deps_histories() + directed_shortcut_histories()
     for mi, mode in enumerate(["drv-0-keepgoing", "drv-4-keepgoing", "cli-serial", "drv-0-cancel"]):
         hs.append(corpus_history(9300 + mi, FAIL_AFTER_OUTPUT, {"c0": ("after-exit", 0), "c2": ("bad-deps", 0)}, mode, "fail-after-output"))
         hs.append(corpus_history(9310 + mi, FAIL_AFTER_OUTPUT, {"c2": ("after-exit", 0)}, mode, "fail-after-output"))
